@@ -29,6 +29,8 @@ THEOREMS = [
     "Sched.yield_min_count",
     "Sched.step_min_count",
     "Sched.zero_weight_never_free",
+    "Sched.weights_of_any_numeric_type",
+    "Sched.integer_weights_raised_pinned",
     "Sched.forced_cycles_count",
     "Sched.free_slot_measure",
     "Sched.free_slots_independent_draws",
